@@ -19,6 +19,8 @@ def configs(tier):
              default_models=True, default_step=True),
         dict(label='2inc P1 B1 2D models', n_rows=2, sensors=[(P, 1, 2), (BV, 1, 3)], with_altitude=False,
              model_states=(3, 3)),
+        dict(label='3inc P1 V1, time+time_step replaced by ANY value >= both operands (rounding-robustness)', n_rows=3,
+             sensors=[(P, 1, 2), (V, 1, 2)], havoc_add=True, sample_mod=0),
     ]
     if tier == 'thorough':
         c += [
@@ -27,7 +29,7 @@ def configs(tier):
             dict(label='3inc P1 V1 B1', n_rows=3, sensors=[(P, 1, 2), (V, 1, 2), (BV, 1, 3)]),
             dict(label='2inc P4', n_rows=2, sensors=[(P, 4, 2)]),
             dict(label='5inc P1 V1', n_rows=5, sensors=[(P, 1, 2), (V, 1, 2)]),
-            dict(label='3inc P1 V1 rounded', n_rows=3, sensors=[(P, 1, 2), (V, 1, 2)], rounded=True),
+            dict(label='4inc P2 V1, time+time_step arbitrary', n_rows=4, sensors=[(P, 2, 2), (V, 1, 2)], havoc_add=True, sample_mod=0),
         ]
     return c
 
